@@ -124,6 +124,29 @@ def job_dcm_routes(ctx, part):
             judge(DCM(rq.R(q)), 'DCM(R)', key)
             judge(Quaternion(q.copy()).to_DCM(), 'Quaternion.to_DCM', key)
             ctx.seen(('q', i))
+        # the same route for N-row arrays of quaternions (every small N; non-unit rows included): every matrix of the stack is a proper rotation
+        from ahrs import QuaternionArray
+        for nb in (1, 2, 3, 4, 5, 9):
+            for off in (0, 17, len(S) - nb):
+                rows = S[off:off + nb] * np.array([1.0, 3.7, 0.2, 1.0, 12.0, 1.0, 0.5, 2.0, 1.0])[:nb, None]
+                for route, fn in (('DCM().from_quaternion(N rows)', lambda: DCM().from_quaternion(rows.copy())), ('DCM().from_q(N rows)', lambda: DCM().from_q(rows.copy())),
+                                  ('QuaternionArray(N rows).to_DCM', lambda: QuaternionArray(rows.copy()).to_DCM()), ('DCM(q=N rows)', lambda: DCM(q=rows.copy()))):
+                    key = f'N={nb} offset={off}'
+                    try:
+                        Ms = np.asarray(fn(), float)
+                    except Exception as ex:
+                        if route == 'DCM(q=N rows)' and nb == 1 and False:
+                            continue
+                        ctx.evals += 1
+                        ctx.fail(f'{route} raises for valid quaternions', key, f'{type(ex).__name__}: {ex}'[:160], 'N rotations')
+                        continue
+                    if Ms.shape != (nb, 3, 3):
+                        ctx.evals += 1
+                        ctx.fail(f'{route} returns N matrices', key, list(Ms.shape), [nb, 3, 3])
+                        continue
+                    for j in range(nb):
+                        judge(Ms[j], route, f'{key} row={j}')
+                        ctx.close(Ms[j], rq.R(rq.qunit(S[off + j])), 1e-12, f'{route}: matrix j is the rotation of row j', f'{key} row={j}')
     ctx.sample({'dcm_route_part': part, 'grid': GRID})
 
 
@@ -218,6 +241,28 @@ def job_average(ctx, k):
                     ref = V[:, -1]
                     ctx.expect(abs(abs(float(a @ ref)) - 1) <= 1e-9, 'average = dominant eigenvector of sum q q^T', key, a, ref, 1e-9)
                 ctx.cls('average'); ctx.seen(('avg', idx, wname))
+    # one quaternion to average (N = 1, or a one-row span of a longer array), with and without a weight that is not one
+    for i in (0, 5, 11):
+        for wname, w in (('none', None), ('0.25', np.array([0.25])), ('2.5', np.array([2.5])), ('1', np.array([1.0]))):
+            for how, mk in (('N=1', lambda: QuaternionArray(np.array([S[i]]))), ):
+                key = f'single row {i} weights={wname} {how} k{k}'
+                try:
+                    a = np.asarray(mk().average() if w is None else mk().average(weights=w.copy()))
+                    ctx.expect(_is_unit_real(a, tol=1e-9) and abs(abs(float(a @ S[i])) - 1) <= 1e-9, 'average of one quaternion is that (unit) quaternion', key, a, S[i], 1e-9)
+                except Exception as ex:
+                    ctx.evals += 1
+                    ctx.fail('average raises', key, repr(ex)[:200], 'unit quaternion')
+            # a one-row span of a longer array
+            try:
+                QA = QuaternionArray(np.array(S))
+                a = np.asarray(QA.average(span=(i, i + 1)) if w is None else QA.average(span=(i, i + 1), weights=w.copy()))
+                ctx.expect(_is_unit_real(a, tol=1e-9) and abs(abs(float(a @ S[i])) - 1) <= 1e-9, 'average over a one-row span is that (unit) quaternion', f'span=({i},{i+1}) weights={wname} k{k}', a, S[i], 1e-9)
+            except (TypeError, ValueError):
+                ctx.outcome('span-refused')
+            except Exception as ex:
+                ctx.evals += 1
+                ctx.fail('average raises', f'span=({i},{i+1}) weights={wname} k{k}', repr(ex)[:200], 'unit quaternion')
+            ctx.cls('average')
     # arrays of PURE quaternions (N-by-3 input, half-turn attitudes): the average has a zero scalar part
     V3 = np.array([[1.0, 0.1, 0.0], [1.0, -0.1, 0.05], [0.9, 0.0, 0.1], [1.0, 0.05, -0.1], [0.95, 0.1, 0.1]])
     for n in (1, 2, 5):
@@ -387,22 +432,13 @@ def job_reject(ctx, k):
                      ('Quaternion(dcm=complex)', lambda: Quaternion(dcm=Rg + 1j * Sg)), ('DCM(q=complex)', lambda: DCM(q=qc + 1j * qc[::-1]))):
         must_reject(fn, 'complex-valued input', f'input={name}')
         ctx.cls('reject:vector'); ctx.seen(('rejc', name))
-    # degenerate values through the keyword routes of DCM: refused, never wrapped as a non-rotation
-    for name, fn in (('axang zero axis', lambda: DCM(axang=(np.zeros(3), 0.5))), ('axang NaN axis', lambda: DCM(axang=(np.array([nan, 0.0, 1.0]), 0.5))),
+    # degenerate values (zero vectors, NaN, wrong lengths) through the keyword routes of DCM: refused, as the statement says, not turned into some rotation
+    for name, fn in (('axang zero axis', lambda: DCM(axang=(np.zeros(3), 0.5))), ('axang zero axis, angle 0', lambda: DCM(axang=(np.zeros(3), 0.0))), ('axang zero axis, angle pi', lambda: DCM(axang=(np.zeros(3), math.pi))), ('axang zero axis (list)', lambda: DCM(axang=([0.0, 0.0, 0.0], 1.0))), ('axang NaN axis', lambda: DCM(axang=(np.array([nan, 0.0, 1.0]), 0.5))),
                      ('axang NaN angle', lambda: DCM(axang=(np.array([0.0, 0.0, 1.0]), nan))), ('q zero', lambda: DCM(q=np.zeros(4))),
                      ('q NaN', lambda: DCM(q=np.array([1.0, nan, 0.0, 0.0]))), ('x NaN', lambda: DCM(x=nan)), ('y NaN', lambda: DCM(y=nan, z=0.3)),
                      ('rpy NaN', lambda: DCM(rpy=[0.1, nan, 0.2])), ('euler NaN', lambda: DCM(euler=('zyx', [0.1, 0.2, nan]))),
                      ('rpy wrong length', lambda: DCM(rpy=[0.1, 0.2])), ('euler not a tuple', lambda: DCM(euler=['zyx', [0.1, 0.2, 0.3]]))):
-        ctx.evals += 1
-        try:
-            r = fn()
-            d = rq.so3_defect(np.asarray(r))
-            if not d <= 1e-12:
-                ctx.fail('DCM(keyword route, degenerate value): refused or a proper rotation, never a wrapped non-rotation', f'input={name}', np.asarray(r), 'ValueError/TypeError')
-        except (ValueError, TypeError):
-            pass
-        except Exception as ex:
-            ctx.fail('DCM(keyword route, degenerate value): refused or a proper rotation, never a wrapped non-rotation', f'input={name}', f'{type(ex).__name__}: {ex}'[:160], 'ValueError/TypeError')
+        must_reject(fn, 'DCM(keyword route, degenerate value)', f'input={name}')
         ctx.cls('reject:vector'); ctx.seen(('rejkw', name))
     # matrices
     Rs = [rq.R(q) for q in [np.array([1.0, 0, 0, 0]), A.MENU[k], A.MENU[(k + 3) % 8], A.G48()[30], A.G48()[12], A.Gl(A.G120(), k)[17],
